@@ -2377,6 +2377,11 @@ token * mmd_engine_parse_substring(mmd_engine * e, size_t byte_start, size_t byt
 		stack_free(pair_stack);
 
 		pair_emphasis_tokens(doc);
+
+		// The root spans the range that was parsed, even when trailing empty
+		// lines or markers were pruned from the last block
+		doc->start = byte_start;
+		doc->len = byte_len;
 	}
 
 	// Return original extensions
